@@ -165,6 +165,28 @@ CHECKS.update({
         text='Call trees whose size/flag arguments are parametrised (replace_by_value / abort options, entry points); for matching inputs the output must equal the machine prediction, for non-matching inputs the guard must trigger.',
         note='Known findings: duplicated actuals, disagreeing call sites, names left in PRINT.'),
 })
+CHECKS.update({
+    'C29': dict(
+        technique='TLA+ reference machine FMachine (ASSOCIATE as true association incl. section selectors and shadowing) + design model AssocResolve; generated nested-associate programs transformed by resolve/merge options and validated by Trace_FMachine',
+        text='Nested ASSOCIATE blocks over scalars, elements, sections, expressions, shadowing names in several populations x option combinations (start_depth, max_parents, resolve then merge, merge then resolve); the transformed module is compiled and run and must print what Run(original, input) predicts.',
+        note='Known findings per defect class (PRINT not rewritten, expression selectors re-evaluated, merging defects, section selector bounds).'),
+    'C30': dict(
+        technique='TLA+ design model SecLoop (when is the offset-only loop rewrite of a section assignment correct) model-checked, its 456 TLC-generated statements replayed into resolve_vector_notation; FMachine (RHS-before-store array assignment, WHERE) validates generated programs after every index-normalising transformation',
+        text='Overlapping / strided / partial / 2-d / masked section assignments under resolve_vector_notation, add/remove explicit dimensions, normalize_range_indexing, normalize_array_shape_and_access, flatten_arrays (Fortran order); outputs validated by Trace_FMachine.',
+        note='shift_to_zero_indexing, invert_array_indices and flatten_arrays(order=C) are only meaningful on the C path and are covered by C35. Known findings.'),
+    'C40': dict(
+        technique='TLA+ clause Idempotent (text after one application = text after two, first differing line named) model-checked and evaluated by TLC on recorded line sequences',
+        text='Eight normalisers (associate resolution, vector-notation resolution, range-index normalisation, lower-casing, import sanitising, sequence-association resolution, dead-code removal, single-variable declarations) applied once and twice to generated programs and hand-varied corpora.',
+        note='One known finding (convert_to_lower_case on deeply nested expressions).'),
+    'C31': dict(
+        technique='TLA+ reference machine FMachine predicts the output; loop transformations applied to pragma-annotated generated nests that are legal by construction',
+        text='Unrolling over every literal (start, stop, step) of a small range incl. negative steps, zero-trip loops and nested depth; fusion / fission / interchange / split / block on nests legal by construction; transformed code compiled with bounds checking and validated by Trace_FMachine.',
+        note='Known findings per family (loop variable after unrolling, PRINT not substituted, fission promotion, split_loop zero-trip).'),
+    'C32': dict(
+        technique='TLA+ reference machine FMachine predicts the output; constant propagation (with/without unrolling), dead-code removal, removal of unused variables / dummy arguments (manually and through the Scheduler)',
+        text='Programs with constants and input-dependent values, decidable and undecidable conditions, loops, arrays, unused locals and dummies; transformed code validated by Trace_FMachine.',
+        note='Known findings: constant propagation is unsound for several constructs; integer division as exact.'),
+})
 NOT_APPLICABLE = {p: 'check not built yet (work in progress; see DESIGN.md build order)' for p in ALL if p not in CHECKS}
 for e in ENGINES:
     e['serves_properties'] = sorted(CHECKS)
